@@ -1,10 +1,1328 @@
-//! Family `limits` — stub (replaced by the unit that owns this family).
+//! Family `limits` (C18): the analysis preflight (`count_program`, `first_exceeded_limit`), what
+//! `Resolver::emit_analysis_warnings` does with its answer, and the run afterwards.
+//!
+//! Protocol (one request per line, one answer per line; `<caps>` = the 11 fields of `AnalysisCaps`
+//! in declaration order):
+//! ```text
+//! lim <caps> <functions> <locals> <scopes> <statements> <totalOps> <totalBlocks> <calls> <k> <b:o:l>*k
+//!       -> limit=<none|metric:observed:limit> sum=<summary bound> live=<liveness bound>
+//!          the real `first_exceeded_limit` on synthetic `ProgramFacts`/`ProgramCounts` with exactly
+//!          these sizes (k = functions; b:o:l = function_blocks, function_ops, locals_len)
+//! prog <caps> <rootLo>:<rootHi> <hex src> F=<facts> <annotated AST, spans erased>
+//!       -> counts=<functions>,<locals>,<scopes>,<statements>,<totalOps>,<totalBlocks>,<calls>;<b:o:l,...> limit=<…>
+//!          real front end on src, real `count_program`, real `first_exceeded_limit` with these caps
+//! e2e <rootLo>:<rootHi> <hex src> X=<hex expected output|?> F=<facts> <annotated AST, spans erased>
+//!       -> counts=… limit=<… at DEFAULT_CAPS> warn=<n>[@lo:hi:severity] other=<n|*> plan=<none|some>
+//!          the real pipeline (`Resolver::resolve`, hard-wired DEFAULT_CAPS) and the run afterwards;
+//!          other = warnings of the analysis passes when a limit tripped (`*` within the limits)
+//! crash <hex src>   -> ok | panic     a program on which the generator saw the front end panic
+//! F=<functions>,<locals>,<scopes>,<statements>,<calls>;<locals_len of every function>
+//! ```
+//! `run` evaluates oracles that need no model and reports `ORACLE-FAIL <line> <what>` on stderr:
+//! the staged answer vs. "first metric in stage order above its cap" computed naively (u128) from
+//! the real counts; `total_ops == statements`; limit tripped ⇔ plan absent ⇔ exactly one `analysis`
+//! warning on the root span and no other warning of the analysis passes; output with the plan ==
+//! output without it (what a tripped limit turns the run into); output == the generator's expected
+//! output (`X=`).  `E2E <line> …` lines on stderr carry what the model does not predict (number of
+//! pass warnings, pruned statements, output) for the check script.
+//!
+//! Programs `shout` to the real stdout, so `run` moves its answers to a duplicate of fd 1 and
+//! points fd 1 at /dev/null.
 
-pub fn main(_args: &[String]) -> i32 {
-    eprintln!("family limits: not built yet");
-    2
+use std::fmt::Write as _;
+use std::io::Write as _;
+use std::os::fd::FromRawFd;
+
+use naijascript::analysis::cfg::{self, ProgramCounts};
+use naijascript::analysis::effects::ExprClass;
+use naijascript::analysis::facts::{
+    FunctionInfo, LocalInfo, LocalKind, ProgramFacts, ScopeInfo, StmtEffectFacts, UserCallBinding,
+};
+use naijascript::analysis::ids::{FunctionId, ScopeId};
+use naijascript::analysis::limits::{AnalysisCaps, AnalysisLimit, DEFAULT_CAPS, first_exceeded_limit};
+use naijascript::analysis::opt::OptimizationPlan;
+use naijascript::arena::Arena;
+use naijascript::diagnostics::{Diagnostics, Severity};
+use naijascript::resolver::Resolver;
+use naijascript::runtime::Runtime;
+use naijascript::syntax::parser::{BlockRef, Parser, Stmt};
+use naijascript::syntax::scanner::Lexer;
+
+use crate::astio::{self, Opts};
+use crate::pipeline;
+use crate::util::{self, Rng};
+
+pub fn main(args: &[String]) -> i32 {
+    match args.first().map(String::as_str) {
+        Some("gen") => generate(&args[1..]),
+        Some("gen-e2e") => gen_e2e(&args[1..]),
+        Some("src") => print_src(&args[1..]),
+        Some("mk") => mk(),
+        Some("run") => run(),
+        _ => {
+            eprintln!(
+                "usage: nvh limits gen --seed S --n N [--lim M] | gen-e2e --case <name>:<delta>[,…] | \
+                 src --case <name>:<delta> | mk < '<caps> <hex src>' lines | run < requests"
+            );
+            2
+        }
+    }
 }
 
-/// Constants/tables of the compiled crate this family wants in `nvh dump-tables`
-/// (JSON key, JSON value text).
-pub fn dump_tables(_out: &mut Vec<(String, String)>) {}
+/// `DEFAULT_CAPS` for `Gen/Caps.lean`.
+pub fn dump_tables(out: &mut Vec<(String, String)>) {
+    let c = DEFAULT_CAPS;
+    let caps: Vec<String> = caps_vec(&c).iter().map(u64::to_string).collect();
+    out.push(("limits_default_caps".into(), format!("[{}]", caps.join(","))));
+    let names: Vec<String> = CAP_FIELDS.iter().map(|s| util::jstr(s)).collect();
+    out.push(("limits_cap_fields".into(), format!("[{}]", names.join(","))));
+    let metrics: Vec<String> = METRICS.iter().map(|s| util::jstr(s)).collect();
+    out.push(("limits_metric_names".into(), format!("[{}]", metrics.join(","))));
+}
+
+const CAP_FIELDS: [&str; 11] = [
+    "max_functions",
+    "max_locals",
+    "max_scopes",
+    "max_statements",
+    "max_total_ops",
+    "max_ops_per_function",
+    "max_total_blocks",
+    "max_blocks_per_function",
+    "max_direct_user_calls",
+    "max_summary_events",
+    "max_liveness_events",
+];
+
+/// The metric strings of `first_exceeded_limit`, in stage order (as the documentation of the
+/// property lists them; the real answer is compared against this order by the naive oracle).
+const METRICS: [&str; 11] = [
+    "functions",
+    "locals",
+    "scopes",
+    "statements",
+    "cfg ops",
+    "ops in one function",
+    "cfg blocks",
+    "blocks in one function",
+    "direct user calls",
+    "summary events",
+    "liveness events",
+];
+
+fn caps_vec(c: &AnalysisCaps) -> [u64; 11] {
+    [
+        u64::from(c.max_functions),
+        u64::from(c.max_locals),
+        u64::from(c.max_scopes),
+        u64::from(c.max_statements),
+        u64::from(c.max_total_ops),
+        u64::from(c.max_ops_per_function),
+        u64::from(c.max_total_blocks),
+        u64::from(c.max_blocks_per_function),
+        u64::from(c.max_direct_user_calls),
+        c.max_summary_events,
+        c.max_liveness_events,
+    ]
+}
+
+fn caps_from(v: &[u64; 11]) -> Option<AnalysisCaps> {
+    let u = |x: u64| u32::try_from(x).ok();
+    Some(AnalysisCaps {
+        max_functions: u(v[0])?,
+        max_locals: u(v[1])?,
+        max_scopes: u(v[2])?,
+        max_statements: u(v[3])?,
+        max_total_ops: u(v[4])?,
+        max_ops_per_function: u(v[5])?,
+        max_total_blocks: u(v[6])?,
+        max_blocks_per_function: u(v[7])?,
+        max_direct_user_calls: u(v[8])?,
+        max_summary_events: v[9],
+        max_liveness_events: v[10],
+    })
+}
+
+fn parse_caps(w: &[&str]) -> Option<AnalysisCaps> {
+    if w.len() != 11 {
+        return None;
+    }
+    let mut v = [0u64; 11];
+    for (i, s) in w.iter().enumerate() {
+        v[i] = s.parse().ok()?;
+    }
+    caps_from(&v)
+}
+
+fn limit_str(l: Option<AnalysisLimit>) -> String {
+    match l {
+        None => "none".to_string(),
+        Some(l) => format!("{}:{}:{}", l.metric.replace(' ', "_"), l.observed, l.limit),
+    }
+}
+
+// ------------------------------------------------------------------------------------------------
+// Naive reference (no staging, exact arithmetic): observed value of every metric.
+
+fn observed_naive(facts: &ProgramFacts<'_, '_>, counts: &ProgramCounts<'_>) -> [u128; 11] {
+    let f = facts.functions.len() as u128;
+    let l = facts.locals.len() as u128;
+    let max = u128::from(u64::MAX);
+    let summary = (f * (f + 2 * l + 2)).min(max);
+    let mut live: u128 = 0;
+    for (i, (b, o)) in counts.function_blocks.iter().zip(counts.function_ops.iter()).enumerate() {
+        let info = &facts.functions[i];
+        let n = u128::from(info.locals_len);
+        live += ((2 * u128::from(*b) + u128::from(*o)) * n).min(max);
+    }
+    let live = live.min(max);
+    [
+        f,
+        l,
+        facts.scopes.len() as u128,
+        facts.stmt_effects.len() as u128,
+        u128::from(counts.total_ops),
+        counts.function_ops.iter().copied().max().map_or(0, u128::from),
+        u128::from(counts.total_blocks),
+        counts.function_blocks.iter().copied().max().map_or(0, u128::from),
+        facts.user_calls.len() as u128,
+        summary,
+        live,
+    ]
+}
+
+fn naive_first(obs: &[u128; 11], caps: &AnalysisCaps) -> String {
+    let c = caps_vec(caps);
+    for i in 0..11 {
+        if obs[i] > u128::from(c[i]) {
+            return format!("{}:{}:{}", METRICS[i].replace(' ', "_"), obs[i], c[i]);
+        }
+    }
+    "none".to_string()
+}
+
+fn counts_str(facts: &ProgramFacts<'_, '_>, counts: &ProgramCounts<'_>) -> String {
+    let mut s = format!(
+        "{},{},{},{},{},{},{};",
+        facts.functions.len(),
+        facts.locals.len(),
+        facts.scopes.len(),
+        facts.stmt_effects.len(),
+        counts.total_ops,
+        counts.total_blocks,
+        facts.user_calls.len()
+    );
+    let n = counts.function_blocks.len().min(counts.function_ops.len());
+    for i in 0..n {
+        if i > 0 {
+            s.push(',');
+        }
+        let l = facts.functions.get(i).map_or(0, |f| f.locals_len);
+        let _ = write!(s, "{}:{}:{}", counts.function_blocks[i], counts.function_ops[i], l);
+    }
+    if n == 0 {
+        s.push('-');
+    }
+    s
+}
+
+/// The part of the facts the preflight reads, as text.
+fn facts_min_str(facts: &ProgramFacts<'_, '_>) -> String {
+    let mut s = format!(
+        "F={},{},{},{},{};",
+        facts.functions.len(),
+        facts.locals.len(),
+        facts.scopes.len(),
+        facts.stmt_effects.len(),
+        facts.user_calls.len()
+    );
+    for (i, f) in facts.functions.iter().enumerate() {
+        if i > 0 {
+            s.push(',');
+        }
+        let _ = write!(s, "{}", f.locals_len);
+    }
+    s
+}
+
+// ------------------------------------------------------------------------------------------------
+// run
+
+struct Answers {
+    w: std::io::BufWriter<std::fs::File>,
+}
+
+impl Answers {
+    /// Move the answer stream to a duplicate of fd 1 and silence fd 1 (programs print there).
+    fn take_stdout() -> Self {
+        let _ = std::io::stdout().flush();
+        let saved = unsafe { libc::dup(1) };
+        assert!(saved >= 0, "dup(1) failed");
+        let devnull = unsafe { libc::open(c"/dev/null".as_ptr(), libc::O_WRONLY) };
+        assert!(devnull >= 0, "open(/dev/null) failed");
+        unsafe {
+            libc::dup2(devnull, 1);
+            libc::close(devnull);
+        }
+        let f = unsafe { std::fs::File::from_raw_fd(saved) };
+        Answers { w: std::io::BufWriter::new(f) }
+    }
+    fn line(&mut self, s: &str) {
+        self.w.write_all(s.as_bytes()).unwrap();
+        self.w.write_all(b"\n").unwrap();
+    }
+}
+
+fn run() -> i32 {
+    util::silence_panics();
+    let mut out = Answers::take_stdout();
+    let stdin = std::io::stdin();
+    let mut fails = 0u64;
+    let mut lineno = 0usize;
+    let mut line = String::new();
+    loop {
+        line.clear();
+        let n = std::io::BufRead::read_line(&mut stdin.lock(), &mut line).unwrap();
+        if n == 0 {
+            break;
+        }
+        lineno += 1;
+        let text = line.trim_end_matches(['\n', '\r']);
+        let r = util::catch(|| answer(text, lineno));
+        match r {
+            Ok((ans, oracle, side)) => {
+                out.line(&ans);
+                for s in side {
+                    eprintln!("{s}");
+                }
+                for msg in oracle {
+                    fails += 1;
+                    eprintln!("ORACLE-FAIL {lineno} {msg}");
+                }
+            }
+            Err(msg) => {
+                out.line("panic");
+                eprintln!("PANIC {lineno} {}", msg.replace('\n', " "));
+            }
+        }
+    }
+    out.w.flush().unwrap();
+    eprintln!("ORACLE-SUMMARY fails={fails} lines={lineno}");
+    0
+}
+
+type Answer = (String, Vec<String>, Vec<String>);
+
+fn bad() -> Answer {
+    ("bad-op".to_string(), Vec::new(), Vec::new())
+}
+
+fn answer(line: &str, lineno: usize) -> Answer {
+    let mut it = line.split(' ').filter(|s| !s.is_empty());
+    match it.next() {
+        Some("lim") => {
+            let w: Vec<&str> = it.collect();
+            answer_lim(&w)
+        }
+        Some("prog") => {
+            let head: Vec<&str> = it.by_ref().take(13).collect();
+            if head.len() != 13 {
+                return bad();
+            }
+            let Some(caps) = parse_caps(&head[..11]) else { return bad() };
+            answer_prog(Some(caps), head[11], head[12], None, lineno)
+        }
+        Some("crash") => {
+            // a program the generator saw the front end panic on: re-run the library pipeline
+            let Some(src) = it.next().and_then(util::unhex).and_then(|b| String::from_utf8(b).ok()) else {
+                return bad();
+            };
+            match front(&src) {
+                Ok(_) => ("ok".to_string(), Vec::new(), Vec::new()),
+                Err(m) => ("panic".to_string(), vec![format!("the pipeline does not accept a valid program: {m}")], Vec::new()),
+            }
+        }
+        Some("e2e") => {
+            let head: Vec<&str> = it.by_ref().take(3).collect();
+            if head.len() != 3 {
+                return bad();
+            }
+            answer_prog(None, head[0], head[1], head[2].strip_prefix("X="), lineno)
+        }
+        _ => bad(),
+    }
+}
+
+// ---- lim: synthetic facts and counts ---------------------------------------------------------
+
+fn answer_lim(w: &[&str]) -> Answer {
+    if w.len() < 19 {
+        return bad();
+    }
+    let Some(caps) = parse_caps(&w[..11]) else { return bad() };
+    let nums: Option<Vec<u64>> = w[11..19].iter().map(|s| s.parse().ok()).collect();
+    let Some(nums) = nums else { return bad() };
+    let (functions, locals, scopes, statements, total_ops, total_blocks, calls, k) =
+        (nums[0], nums[1], nums[2], nums[3], nums[4], nums[5], nums[6], nums[7]);
+    if k != functions || w.len() as u64 != 19 + k {
+        return bad();
+    }
+    if functions > 100_000 || locals > 1_000_000 || scopes > 1_000_000 || statements > 1_000_000 || calls > 1_000_000 {
+        return bad();
+    }
+    let mut per: Vec<(u32, u32, u32)> = Vec::new();
+    for s in &w[19..] {
+        let p: Vec<&str> = s.split(':').collect();
+        if p.len() != 3 {
+            return bad();
+        }
+        let (Ok(b), Ok(o), Ok(l)) = (p[0].parse::<u32>(), p[1].parse::<u32>(), p[2].parse::<u32>()) else {
+            return bad();
+        };
+        per.push((b, o, l));
+    }
+    let (Ok(total_ops), Ok(total_blocks)) = (u32::try_from(total_ops), u32::try_from(total_blocks)) else {
+        return bad();
+    };
+    let arena = Arena::new(512 << 20).unwrap();
+    // One tiny real program supplies the node references the fact records must point at.
+    let lexer = Lexer::new("make x get f()", &arena);
+    let mut parser = Parser::new(lexer, &arena);
+    let (root, _errs) = parser.parse_program();
+    let stmt = root.stmts[0];
+    let Stmt::Assign { expr, .. } = stmt else { panic!("seed program shape") };
+    let mut facts: ProgramFacts<'_, '_> = ProgramFacts::new(&arena);
+    for (i, p) in per.iter().enumerate() {
+        facts.functions.push(FunctionInfo {
+            name: "f",
+            params: None,
+            parent: if i == 0 { None } else { Some(FunctionId(0)) },
+            defining_scope: ScopeId(0),
+            def_span: root.span.clone(),
+            body_span: root.span.clone(),
+            body: root,
+            def_stmt: None,
+            locals_start: 0,
+            locals_len: p.2,
+        });
+    }
+    for _ in 0..locals {
+        facts.locals.push(LocalInfo {
+            name: "x",
+            owner: FunctionId(0),
+            declaring_scope: ScopeId(0),
+            decl_span: root.span.clone(),
+            decl_stmt: None,
+            kind: LocalKind::Variable,
+        });
+    }
+    for _ in 0..scopes {
+        facts.scopes.push(ScopeInfo { parent: None, owner: FunctionId(0), span: root.span.clone() });
+    }
+    for _ in 0..statements {
+        facts.stmt_effects.push(StmtEffectFacts {
+            stmt,
+            function: FunctionId(0),
+            scope: ScopeId(0),
+            reads: Vec::new_in(&arena),
+            writes: Vec::new_in(&arena),
+            direct_callees: Vec::new_in(&arena),
+            expr_class: ExprClass::PureNoTrap,
+        });
+    }
+    for _ in 0..calls {
+        facts.user_calls.push(UserCallBinding { call: expr, caller: FunctionId(0), callee: FunctionId(0) });
+    }
+    let mut function_blocks = Vec::new_in(&arena);
+    let mut function_ops = Vec::new_in(&arena);
+    for p in &per {
+        function_blocks.push(p.0);
+        function_ops.push(p.1);
+    }
+    let counts = ProgramCounts {
+        function_blocks,
+        function_ops,
+        total_blocks,
+        total_ops,
+        total_statements: statements as u32,
+    };
+    let real = first_exceeded_limit(&facts, &counts, caps);
+    // The two private bounds, read back through the public function: everything else unlimited.
+    let wide = AnalysisCaps {
+        max_functions: u32::MAX,
+        max_locals: u32::MAX,
+        max_scopes: u32::MAX,
+        max_statements: u32::MAX,
+        max_total_ops: u32::MAX,
+        max_ops_per_function: u32::MAX,
+        max_total_blocks: u32::MAX,
+        max_blocks_per_function: u32::MAX,
+        max_direct_user_calls: u32::MAX,
+        max_summary_events: u64::MAX,
+        max_liveness_events: u64::MAX,
+    };
+    let sum = first_exceeded_limit(&facts, &counts, AnalysisCaps { max_summary_events: 0, ..wide })
+        .map_or(0, |l| l.observed);
+    let live = first_exceeded_limit(&facts, &counts, AnalysisCaps { max_liveness_events: 0, ..wide })
+        .map_or(0, |l| l.observed);
+    let obs = observed_naive(&facts, &counts);
+    let mut oracle = Vec::new();
+    let naive = naive_first(&obs, &caps);
+    let real_s = limit_str(real);
+    if naive != real_s {
+        oracle.push(format!("staged answer {real_s} differs from the first metric above its cap {naive}"));
+    }
+    if u128::from(sum) != obs[9] || u128::from(live) != obs[10] {
+        oracle.push(format!("event bounds {sum}/{live} differ from exact arithmetic {}/{}", obs[9], obs[10]));
+    }
+    (format!("limit={real_s} sum={sum} live={live}"), oracle, Vec::new())
+}
+
+// ---- prog / e2e: real front end ----------------------------------------------------------------
+
+fn arena_for(src_len: usize) -> Arena {
+    // 64 MiB is plenty for the random programs; the default-cap programs need a few GiB of
+    // address space (lazily committed).
+    let cap = if src_len < (256 << 10) { pipeline::ARENA_CAP } else { 12usize << 30 };
+    Arena::new(cap).unwrap()
+}
+
+fn outcome(rt: &Runtime<'_>, errs: &Diagnostics<'_>) -> (String, String) {
+    let mut out = String::new();
+    for (i, v) in rt.output.iter().enumerate() {
+        if i > 0 {
+            out.push('\n');
+        }
+        let _ = write!(out, "{v}");
+    }
+    (out, pipeline::diags_str(errs))
+}
+
+fn run_once<'a>(
+    root: BlockRef<'a>,
+    facts: &ProgramFacts<'a, 'a>,
+    plan: Option<&OptimizationPlan<'a>>,
+    arena: &'a Arena,
+    frame: &'a Arena,
+) -> (String, String) {
+    let mut rt = Runtime::new(arena, Some(frame));
+    let _ = rt.run_with_analysis(root, facts, plan);
+    let errs = std::mem::replace(&mut rt.errors, Diagnostics::new(arena));
+    outcome(&rt, &errs)
+}
+
+/// Own locals of every function are exactly its `local_range` (the analyses index bit sets by it;
+/// programs where this fails are finding D-18 and are kept out of the run oracle).
+fn ranges_contiguous(facts: &ProgramFacts<'_, '_>) -> bool {
+    facts.locals.iter().enumerate().all(|(i, l)| {
+        let r = facts.local_range(l.owner);
+        r.contains(&(i as u32))
+    })
+}
+
+const PASS_WARNINGS: [&str; 4] = ["Unreachable code", "Unused assignment", "Unused variable", "Unused function"];
+
+fn answer_prog(caps: Option<AnalysisCaps>, rootspan: &str, hexsrc: &str, expect: Option<&str>, lineno: usize) -> Answer {
+    let Some(bytes) = util::unhex(hexsrc) else { return bad() };
+    let Ok(src) = String::from_utf8(bytes) else { return bad() };
+    let arena = arena_for(src.len());
+    let frame = Arena::new(pipeline::ARENA_CAP).unwrap();
+    let lexer = Lexer::new(&src, &arena);
+    let mut parser = Parser::new(lexer, &arena);
+    let (root, perrs) = parser.parse_program();
+    if !perrs.diagnostics.is_empty() {
+        return ("parse-error".to_string(), Vec::new(), Vec::new());
+    }
+    let mut oracle = Vec::new();
+    let mut side = Vec::new();
+    if format!("{}:{}", root.span.start, root.span.end) != rootspan {
+        oracle.push(format!("request says root span {rootspan}, parser says {}:{}", root.span.start, root.span.end));
+    }
+    let mut resolver = Resolver::new(&arena);
+    resolver.resolve(root);
+    let facts = &resolver.facts;
+    let counts = cfg::count_program(facts, &arena);
+    let e2e = caps.is_none();
+    let caps = caps.unwrap_or(DEFAULT_CAPS);
+    let real = first_exceeded_limit(facts, &counts, caps);
+    let real_s = limit_str(real);
+    let obs = observed_naive(facts, &counts);
+    let naive = naive_first(&obs, &caps);
+    if naive != real_s {
+        oracle.push(format!("staged answer {real_s} differs from the first metric above its cap {naive}"));
+    }
+    if u64::from(counts.total_ops) != facts.stmt_effects.len() as u64 {
+        oracle.push(format!("total_ops {} != statements {}", counts.total_ops, facts.stmt_effects.len()));
+    }
+    if counts.total_ops != counts.function_ops.iter().sum::<u32>()
+        || counts.total_blocks != counts.function_blocks.iter().sum::<u32>()
+    {
+        oracle.push("totals are not the sums of the per-function counters".to_string());
+    }
+    let mut ans = format!("counts={} limit={real_s}", counts_str(facts, &counts));
+
+    // What the pipeline (hard-wired DEFAULT_CAPS) did.
+    let default_limit = first_exceeded_limit(facts, &counts, DEFAULT_CAPS);
+    let analysis: Vec<_> = resolver.errors.diagnostics.iter().filter(|d| d.code == "analysis").collect();
+    let others = resolver
+        .errors
+        .diagnostics
+        .iter()
+        .filter(|d| d.severity == Severity::Warning && d.code == "semantic" && PASS_WARNINGS.contains(&d.message))
+        .count();
+    let plan = resolver.optimization_plan.as_ref();
+    if default_limit.is_some() {
+        if plan.is_some() {
+            oracle.push("limit tripped but an optimisation plan was kept".to_string());
+        }
+        if analysis.len() != 1 {
+            oracle.push(format!("limit tripped but {} analysis warnings", analysis.len()));
+        }
+        if others != 0 {
+            oracle.push(format!("limit tripped but {others} warnings of the analysis passes were emitted"));
+        }
+        for d in &analysis {
+            if d.span != root.span || d.severity != Severity::Warning || d.labels.len() != 1 || d.labels[0].span != root.span {
+                oracle.push("limit warning is not a single-label warning on the root body span".to_string());
+            } else if let Some(l) = default_limit {
+                // the label names the metric that tripped with its observed value and cap
+                let want = format!("{} for {} (observed {}, limit {})", d.message, l.metric, l.observed, l.limit);
+                if d.labels[0].message.as_ref() != want {
+                    oracle.push(format!("limit warning label {:?} does not name the tripped metric ({want:?})", clip(d.labels[0].message.as_ref())));
+                }
+            }
+        }
+    } else {
+        if plan.is_none() {
+            oracle.push("no limit tripped but there is no optimisation plan".to_string());
+        }
+        if !analysis.is_empty() {
+            oracle.push("no limit tripped but an analysis warning was emitted".to_string());
+        }
+    }
+    if e2e {
+        let w = match analysis.first() {
+            Some(d) => format!("{}@{}:{}:{}", analysis.len(), d.span.start, d.span.end, pipeline::sev_name(d.severity)),
+            None => "0".to_string(),
+        };
+        // above a limit the model says: no warning of the passes; within, they are abstract (`*`)
+        let o = if default_limit.is_some() { others.to_string() } else { "*".to_string() };
+        let _ = write!(ans, " warn={w} other={o} plan={}", if plan.is_some() { "some" } else { "none" });
+    }
+
+    // The run: with what the pipeline would use under *these* caps vs. with the default plan.
+    let runnable = !resolver.errors.has_errors() && ranges_contiguous(facts);
+    let mut run_info = String::from("run=skipped");
+    if runnable {
+        let with_plan = run_once(root, facts, plan, &arena, &frame);
+        let tripped_here = real.is_some();
+        let without = if plan.is_some() { run_once(root, facts, None, &arena, &frame) } else { with_plan.clone() };
+        if with_plan != without {
+            oracle.push(format!(
+                "output differs between the run with the plan and the run a tripped limit gives (no plan){}: {:?} vs {:?}",
+                if tripped_here { " [these caps trip]" } else { "" },
+                clip(&with_plan.0),
+                clip(&without.0)
+            ));
+        }
+        if let Some(x) = expect
+            && x != "?"
+        {
+            let want = util::unhex(x).map(|b| String::from_utf8_lossy(&b).into_owned()).unwrap_or_default();
+            if want != with_plan.0 || with_plan.1 != "-" {
+                oracle.push(format!("output {:?} ({}) differs from the expected {:?}", clip(&with_plan.0), with_plan.1, clip(&want)));
+            }
+        }
+        run_info = format!("out={} rt={}", util::hex(clip(&with_plan.0).as_bytes()), with_plan.1);
+    }
+    if e2e {
+        side.push(format!(
+            "E2E {lineno} other={others} pruned={} {run_info}",
+            plan.map_or(0, |p| p.removable_stmts.len() + p.removable_function_defs.len())
+        ));
+    } else if runnable {
+        side.push(format!(
+            "RUN {lineno} tripped={} pruned={}",
+            u8::from(real.is_some()),
+            plan.map_or(0, |p| p.removable_stmts.len() + p.removable_function_defs.len())
+        ));
+    }
+    (ans, oracle, side)
+}
+
+fn clip(s: &str) -> String {
+    if s.len() <= 200 { s.to_string() } else { format!("{}…[{} bytes]", &s[..s.floor_char_boundary(200)], s.len()) }
+}
+
+// ------------------------------------------------------------------------------------------------
+// Front end for the generators: source -> (root span, facts text, AST text, counts, observed)
+
+struct Front {
+    rootspan: String,
+    facts: String,
+    ast: String,
+    obs: [u128; 11],
+    errors: bool,
+}
+
+fn front(src: &str) -> Result<Front, String> {
+    util::catch(|| {
+        let arena = arena_for(src.len());
+        let lexer = Lexer::new(src, &arena);
+        let mut parser = Parser::new(lexer, &arena);
+        let (root, perrs) = parser.parse_program();
+        if !perrs.diagnostics.is_empty() {
+            return Err(format!("parse error in generated program: {}", pipeline::diags_str(perrs)));
+        }
+        let mut resolver = Resolver::new(&arena);
+        resolver.resolve(root);
+        let counts = cfg::count_program(&resolver.facts, &arena);
+        Ok(Front {
+            rootspan: format!("{}:{}", root.span.start, root.span.end),
+            facts: facts_min_str(&resolver.facts),
+            ast: astio::program(&Opts { spans: false, facts: Some(&resolver.facts) }, root),
+            obs: observed_naive(&resolver.facts, &counts),
+            errors: resolver.errors.has_errors(),
+        })
+    })
+    .unwrap_or_else(|m| Err(format!("front end panicked: {}", m.replace('\n', " "))))
+}
+
+// ------------------------------------------------------------------------------------------------
+// gen: random small programs with caps around the observed values, and synthetic `lim` requests
+
+fn generate(args: &[String]) -> i32 {
+    let seed = util::opt_u64(args, "--seed", 1);
+    let n = util::opt_u64(args, "--n", 500);
+    let nlim = util::opt_u64(args, "--lim", n);
+    let mut rng = Rng::new(seed ^ 0xC18);
+    let mut out = util::Out::new();
+    let mut stats = std::collections::BTreeMap::<String, u64>::new();
+    let mut bump = |k: &str| *stats.entry(k.to_string()).or_insert(0) += 1;
+    for _ in 0..nlim {
+        out.line(&gen_lim(&mut rng));
+        bump("lim");
+    }
+    let mut made = 0u64;
+    let mut attempts = 0u64;
+    while made < n && attempts < n * 4 + 16 {
+        attempts += 1;
+        let mut pg = ProgGen::new(rng.fork());
+        let src = pg.program();
+        match front(&src) {
+            Err(m) => {
+                bump("front_end_failure");
+                if m.contains("panicked") {
+                    out.line(&format!("crash {}", util::hex(src.as_bytes())));
+                    made += 1;
+                }
+            }
+            Ok(f) => {
+                // several cap vectors per program
+                let reps = 1 + rng.below(3);
+                for _ in 0..reps {
+                    let (caps, target) = caps_around(&mut rng, &f.obs);
+                    let caps_s: Vec<String> = caps.iter().map(u64::to_string).collect();
+                    out.line(&format!(
+                        "prog {} {} {} {} {}",
+                        caps_s.join(" "),
+                        f.rootspan,
+                        util::hex(src.as_bytes()),
+                        f.facts,
+                        f.ast
+                    ));
+                    bump(&format!("prog_target_{target}"));
+                    made += 1;
+                }
+                if f.errors {
+                    bump("prog_with_resolver_errors");
+                }
+            }
+        }
+    }
+    let s: Vec<String> = stats.iter().map(|(k, v)| format!("{k}={v}")).collect();
+    eprintln!("GEN-STATS {}", s.join(" "));
+    0
+}
+
+/// Caps chosen so that a chosen stage is the first to trip (or none), with the other caps at or
+/// around the observed values so that every `>` / `>=` confusion and every order swap shows.
+fn caps_around(rng: &mut Rng, obs: &[u128; 11]) -> ([u64; 11], String) {
+    let lim = |i: usize| if i < 9 { u128::from(u32::MAX) } else { u128::from(u64::MAX) };
+    let target = rng.below(13) as usize; // 0..10 = that stage trips first, 11 = none, 12 = free-for-all
+    let mut caps = [0u64; 11];
+    for i in 0..11 {
+        let o = obs[i].min(lim(i));
+        let at = o as u64;
+        let above = (o + 1).min(lim(i)) as u64;
+        let below = o.saturating_sub(1) as u64;
+        caps[i] = if target == 12 {
+            *rng.pick(&[below, at, above, 0, lim(i) as u64])
+        } else if i < target {
+            // must not trip: cap >= observed, mostly exactly at the boundary
+            if rng.chance(3, 4) { at } else { *rng.pick(&[above, lim(i) as u64, at.saturating_add(7).min(lim(i) as u64)]) }
+        } else if i == target {
+            if o == 0 { 0 } else { if rng.chance(3, 4) { below } else { rng.below(at) } }
+        } else {
+            *rng.pick(&[below, at, above, 0, lim(i) as u64])
+        };
+    }
+    let name = match target {
+        11 => "none".to_string(),
+        12 => "free".to_string(),
+        t => METRICS[t].replace(' ', "_"),
+    };
+    (caps, name)
+}
+
+fn gen_lim(rng: &mut Rng) -> String {
+    let functions = match rng.below(8) {
+        0 => 0,
+        1 => 1,
+        _ => 1 + rng.below(6),
+    };
+    let small = |rng: &mut Rng| match rng.below(6) {
+        0 => 0,
+        1 => 1,
+        2 => rng.below(2000),
+        _ => rng.below(40),
+    };
+    let u32ish = |rng: &mut Rng| -> u64 {
+        match rng.below(10) {
+            0 => u64::from(u32::MAX),
+            1 => u64::from(u32::MAX) - rng.below(3),
+            2 => 1 << 31,
+            3 => 0,
+            4 => rng.below(1 << 20),
+            _ => rng.below(60),
+        }
+    };
+    let locals = small(rng);
+    let scopes = small(rng);
+    let statements = small(rng);
+    let calls = small(rng);
+    let mut per = Vec::new();
+    for _ in 0..functions {
+        per.push((u32ish(rng), u32ish(rng), u32ish(rng)));
+    }
+    // totals: usually the true sums when they fit, sometimes arbitrary
+    let sum_b: u64 = per.iter().map(|p| p.0).sum();
+    let sum_o: u64 = per.iter().map(|p| p.1).sum();
+    let total_blocks = if sum_b <= u64::from(u32::MAX) && rng.chance(3, 4) { sum_b } else { u32ish(rng) };
+    let total_ops = if sum_o <= u64::from(u32::MAX) && rng.chance(3, 4) { sum_o } else { u32ish(rng) };
+    // observed values for cap selection
+    let f = u128::from(functions);
+    let l = u128::from(locals);
+    let max = u128::from(u64::MAX);
+    let live: u128 = per
+        .iter()
+        .map(|p| ((2 * u128::from(p.0) + u128::from(p.1)) * u128::from(p.2)).min(max))
+        .sum::<u128>()
+        .min(max);
+    let obs: [u128; 11] = [
+        f,
+        l,
+        u128::from(scopes),
+        u128::from(statements),
+        u128::from(total_ops),
+        per.iter().map(|p| u128::from(p.1)).max().unwrap_or(0),
+        u128::from(total_blocks),
+        per.iter().map(|p| u128::from(p.0)).max().unwrap_or(0),
+        u128::from(calls),
+        (f * (f + 2 * l + 2)).min(max),
+        live,
+    ];
+    let (caps, _t) = caps_around(rng, &obs);
+    let caps_s: Vec<String> = caps.iter().map(u64::to_string).collect();
+    let mut s = format!(
+        "lim {} {functions} {locals} {scopes} {statements} {total_ops} {total_blocks} {calls} {functions}",
+        caps_s.join(" ")
+    );
+    for p in &per {
+        let _ = write!(s, " {}:{}:{}", p.0, p.1, p.2);
+    }
+    s
+}
+
+// ---- random programs -----------------------------------------------------------------------------
+
+struct Var {
+    name: String,
+    fn_depth: usize,
+    writable: bool,
+    array: bool,
+}
+
+struct FnSig {
+    name: String,
+    arity: usize,
+    index: u64,
+}
+
+struct ProgGen {
+    rng: Rng,
+    out: String,
+    vars: Vec<Vec<Var>>,
+    fns: Vec<Vec<FnSig>>,
+    next_id: u64,
+    budget: i64,
+    fn_depth: usize,
+    /// index of the function being generated (root = u64::MAX): calls go to smaller indices only,
+    /// so the call graph is acyclic and every run terminates
+    cur_fn: u64,
+}
+
+impl ProgGen {
+    fn new(rng: Rng) -> Self {
+        ProgGen {
+            rng,
+            out: String::new(),
+            vars: vec![Vec::new()],
+            fns: vec![Vec::new()],
+            next_id: 0,
+            budget: 0,
+            fn_depth: 0,
+            cur_fn: u64::MAX,
+        }
+    }
+
+    fn fresh(&mut self) -> u64 {
+        self.next_id += 1;
+        self.next_id
+    }
+
+    fn program(&mut self) -> String {
+        self.budget = 3 + self.rng.below(40) as i64;
+        let err_mode = self.rng.chance(1, 10);
+        self.stmts(0, false, true);
+        if err_mode {
+            let bad = match self.rng.below(5) {
+                0 => "comot\n".to_string(),
+                1 => "return 1\n".to_string(),
+                2 => "do dup() start end\ndo dup() start make q get 1 end\n".to_string(),
+                3 => "nowhere get 1\n".to_string(),
+                _ => "next\nshout(1)\n".to_string(),
+            };
+            if self.rng.chance(1, 2) {
+                self.out.push_str(&bad);
+            } else {
+                self.out = bad + &self.out;
+            }
+        }
+        self.out.push_str("shout(0)\n");
+        std::mem::take(&mut self.out)
+    }
+
+    fn visible_nums(&self, writable_here: bool) -> Vec<String> {
+        let mut v = Vec::new();
+        for sc in &self.vars {
+            for x in sc {
+                if x.array {
+                    continue;
+                }
+                if writable_here && !(x.writable && x.fn_depth == self.fn_depth) {
+                    continue;
+                }
+                v.push(x.name.clone());
+            }
+        }
+        // a later declaration of the same name shadows an earlier one: keep names whose innermost
+        // declaration qualifies
+        v.retain(|n| {
+            let inner = self.vars.iter().rev().flat_map(|s| s.iter().rev()).find(|x| &x.name == n).unwrap();
+            !inner.array && (!writable_here || (inner.writable && inner.fn_depth == self.fn_depth))
+        });
+        v.sort();
+        v.dedup();
+        v
+    }
+
+    fn atom(&mut self) -> String {
+        let vs = self.visible_nums(false);
+        if !vs.is_empty() && self.rng.chance(1, 2) {
+            self.rng.pick(&vs).clone()
+        } else {
+            self.rng.below(10).to_string()
+        }
+    }
+
+    fn callable(&self) -> Vec<(String, usize)> {
+        let mut seen = std::collections::BTreeSet::new();
+        let mut v = Vec::new();
+        for sc in self.fns.iter().rev() {
+            for f in sc.iter().rev() {
+                if seen.insert(f.name.clone()) && f.index < self.cur_fn {
+                    v.push((f.name.clone(), f.arity));
+                }
+            }
+        }
+        v
+    }
+
+    fn call(&mut self) -> Option<String> {
+        let fs = self.callable();
+        if fs.is_empty() {
+            return None;
+        }
+        let (name, arity) = self.rng.pick(&fs).clone();
+        let args: Vec<String> = (0..arity).map(|_| self.atom()).collect();
+        Some(format!("{name}({})", args.join(", ")))
+    }
+
+    fn expr(&mut self, depth: u32) -> String {
+        match self.rng.below(8) {
+            0 | 1 if depth < 2 => {
+                let op = *self.rng.pick(&["add", "minus", "times"]);
+                let l = self.expr(depth + 1);
+                let r = self.expr(depth + 1);
+                format!("({l} {op} {r})")
+            }
+            2 => self.call().unwrap_or_else(|| self.atom()),
+            _ => self.atom(),
+        }
+    }
+
+    fn cond(&mut self) -> String {
+        match self.rng.below(6) {
+            0 => "true".to_string(),
+            1 => "false".to_string(),
+            _ => {
+                let op = *self.rng.pick(&["pass", "small pass", "na"]);
+                let l = self.atom();
+                let r = self.atom();
+                format!("{l} {op} {r}")
+            }
+        }
+    }
+
+    fn block(&mut self, depth: u32, in_loop: bool, prelude: &str) {
+        self.out.push_str("start\n");
+        self.out.push_str(prelude);
+        self.vars.push(Vec::new());
+        self.fns.push(Vec::new());
+        self.stmts(depth + 1, in_loop, false);
+        self.vars.pop();
+        self.fns.pop();
+        self.out.push_str("end\n");
+    }
+
+    fn stmts(&mut self, depth: u32, in_loop: bool, top: bool) {
+        let n = if top { 2 + self.rng.below(10) } else { self.rng.below(5) };
+        for _ in 0..n {
+            if self.budget <= 0 {
+                break;
+            }
+            self.budget -= 1;
+            self.stmt(depth, in_loop);
+        }
+    }
+
+    fn stmt(&mut self, depth: u32, in_loop: bool) {
+        let k = self.rng.below(100);
+        match k {
+            0..=17 => {
+                // declaration (names from a small pool so that shadowing and re-declaration happen)
+                let name = format!("v{}", self.rng.below(6));
+                let e = self.expr(0);
+                let _ = writeln!(self.out, "make {name} get {e}");
+                let fd = self.fn_depth;
+                self.vars.last_mut().unwrap().push(Var { name, fn_depth: fd, writable: true, array: false });
+            }
+            18..=31 => {
+                let vs = self.visible_nums(true);
+                if vs.is_empty() {
+                    let e = self.expr(0);
+                    let _ = writeln!(self.out, "shout({e})");
+                } else {
+                    let x = self.rng.pick(&vs).clone();
+                    let e = self.expr(0);
+                    let _ = writeln!(self.out, "{x} get {e}");
+                }
+            }
+            32..=41 => {
+                let e = self.expr(0);
+                let _ = writeln!(self.out, "shout({e})");
+            }
+            42..=53 if depth < 3 => {
+                let c = self.cond();
+                let _ = write!(self.out, "if to say ({c}) ");
+                self.block(depth, in_loop, "");
+                if self.rng.chance(1, 2) {
+                    self.out.push_str("if not so ");
+                    self.block(depth, in_loop, "");
+                }
+            }
+            54..=61 if depth < 3 => {
+                let id = self.fresh();
+                let i = format!("i{id}");
+                let bound = 1 + self.rng.below(3);
+                let _ = writeln!(self.out, "make {i} get 0");
+                let fd = self.fn_depth;
+                self.vars.last_mut().unwrap().push(Var { name: i.clone(), fn_depth: fd, writable: false, array: false });
+                let _ = write!(self.out, "jasi ({i} small pass {bound}) ");
+                self.block(depth, true, &format!("{i} get {i} add 1\n"));
+            }
+            62..=67 if depth < 3 => {
+                self.block(depth, in_loop, "");
+            }
+            68..=79 if depth < 3 => {
+                let id = self.fresh();
+                let name = format!("f{id}");
+                let arity = self.rng.below(3) as usize;
+                let params: Vec<String> = (0..arity).map(|j| format!("p{id}x{j}")).collect();
+                let _ = write!(self.out, "do {name}({}) start\n", params.join(", "));
+                // the body: own scope stack entry, parameters writable, function not yet callable
+                // from itself (no recursion)
+                let saved_fn = self.cur_fn;
+                self.cur_fn = id;
+                self.fn_depth += 1;
+                let fd = self.fn_depth;
+                self.vars.push(params.iter().map(|p| Var { name: p.clone(), fn_depth: fd, writable: true, array: false }).collect());
+                self.fns.push(Vec::new());
+                self.stmts(depth + 1, false, false);
+                let e = self.expr(0);
+                let _ = writeln!(self.out, "return {e}");
+                if self.rng.chance(1, 4) {
+                    // dead tail after the final return
+                    let e = self.expr(0);
+                    let _ = writeln!(self.out, "shout({e})");
+                }
+                self.vars.pop();
+                self.fns.pop();
+                self.fn_depth -= 1;
+                self.cur_fn = saved_fn;
+                self.out.push_str("end\n");
+                self.fns.last_mut().unwrap().push(FnSig { name, arity, index: id });
+            }
+            80..=87 => match self.call() {
+                Some(c) => {
+                    let _ = writeln!(self.out, "{c}");
+                }
+                None => {
+                    let e = self.expr(0);
+                    let _ = writeln!(self.out, "shout({e})");
+                }
+            },
+            88..=91 if self.fn_depth > 0 => {
+                let e = self.expr(0);
+                let _ = writeln!(self.out, "return {e}");
+            }
+            92..=95 if in_loop => {
+                let w = if self.rng.chance(1, 2) { "comot" } else { "next" };
+                let _ = writeln!(self.out, "{w}");
+            }
+            96..=97 => {
+                let id = self.fresh();
+                let a = format!("arr{id}");
+                let x = self.atom();
+                let y = self.atom();
+                let _ = writeln!(self.out, "make {a} get [{x}, 2, 3]");
+                let _ = writeln!(self.out, "{a}[0] get {y}");
+                let fd = self.fn_depth;
+                self.vars.last_mut().unwrap().push(Var { name: a, fn_depth: fd, writable: false, array: true });
+            }
+            _ => {
+                let e = self.expr(0);
+                let _ = writeln!(self.out, "shout({e})");
+            }
+        }
+    }
+}
+
+// ------------------------------------------------------------------------------------------------
+// gen-e2e: programs sized at / around one DEFAULT cap each
+
+/// (source, expected output) of the boundary program `name` at `cap + delta` (see the module docs
+/// of `checks/c18.py` for the shapes).  All sizes are derived from the crate's DEFAULT_CAPS.
+fn e2e_source(name: &str, delta: i64) -> Option<(String, String)> {
+    let c = DEFAULT_CAPS;
+    let at = |cap: u64| -> u64 { (cap as i64 + delta).max(0) as u64 };
+    let mut s = String::new();
+    // two root locals; `canary` is never read: below the limits it earns an "Unused variable"
+    // warning and its declaration is pruned, above them neither happens
+    s.push_str("make x get 0\nmake canary get 7\n");
+    let expected: String;
+    match name {
+        // functions = 1 + k
+        "functions" | "summaryf" => {
+            let total = if name == "functions" {
+                at(u64::from(c.max_functions))
+            } else {
+                // largest f with f * (f + 2*2 + 2) <= max_summary_events, then + delta (delta 0 = the
+                // last size below the cap, +1 = the first above)
+                let cap = u128::from(c.max_summary_events);
+                let mut f: u128 = 1;
+                while (f + 1) * (f + 1 + 6) <= cap {
+                    f += 1;
+                }
+                (f as i64 + delta).max(1) as u64
+            };
+            for i in 0..total.saturating_sub(1) {
+                let _ = writeln!(s, "do f{i}() start end");
+            }
+            expected = "0".into();
+        }
+        // locals = 2 + parameters of 62 (locals) / 63 (summary) functions
+        "locals" | "summary" => {
+            let (nfn, total) = if name == "locals" {
+                (62u64, at(u64::from(c.max_locals)))
+            } else {
+                // f = 64 functions: f * (f + 2l + 2) = cap  <=>  l = (cap / 64 - 66) / 2
+                (63u64, at((c.max_summary_events / 64 - 66) / 2))
+            };
+            let q = total.saturating_sub(2);
+            for i in 0..nfn {
+                let n = q / nfn + u64::from(i < q % nfn);
+                let _ = write!(s, "do p{i}(");
+                for j in 0..n {
+                    if j > 0 {
+                        s.push_str(", ");
+                    }
+                    let _ = write!(s, "a{j}");
+                }
+                s.push_str(") start end\n");
+            }
+            expected = "0".into();
+        }
+        // scopes = 1 + k
+        "scopes" => {
+            for _ in 0..at(u64::from(c.max_scopes)).saturating_sub(1) {
+                s.push_str("start end\n");
+            }
+            expected = "0".into();
+        }
+        // statements = 3 + k
+        "statements" => {
+            let k = at(u64::from(c.max_statements)).saturating_sub(3);
+            for _ in 0..k {
+                s.push_str("x get x add 1\n");
+            }
+            expected = k.to_string();
+        }
+        // blocks of one function = 2 + t.  (The *total* block cap cannot be the first stage to trip
+        // at the default caps: an `if`/loop is 3 blocks for 1 scope and 1 statement, a statement after
+        // `return`/`comot`/`next` 1 block for 1 statement, so blocks <= 2 + 2*scopes + statements
+        // <= 524288 while the scope and statement stages pass.)
+        "fnblocks" => {
+            let t = at(u64::from(c.max_blocks_per_function)).saturating_sub(2);
+            let (m, d) = (t / 3, t % 3);
+            s.push_str("do g0() start\n");
+            for _ in 0..m {
+                s.push_str("if to say (true) start end\n");
+            }
+            s.push_str("return 1\n");
+            for _ in 0..d {
+                // a statement after `return` opens one more (unreachable) block
+                s.push_str("shout(0)\nreturn 1\n");
+            }
+            s.push_str("end\nx get x add g0()\n");
+            expected = "1".into();
+        }
+        // direct user calls = k, 16 per statement
+        "calls" => {
+            let k = at(u64::from(c.max_direct_user_calls));
+            s.push_str("do one() start return 1 end\n");
+            let mut left = k;
+            while left > 0 {
+                let n = left.min(16);
+                s.push_str("x get x");
+                for _ in 0..n {
+                    s.push_str(" add one()");
+                }
+                s.push('\n');
+                left -= n;
+            }
+            expected = k.to_string();
+        }
+        // liveness: one function (the root) with 4096 locals and (cap/4096 - 4) ops
+        "liveness" => {
+            let l = 4096u64;
+            let ops = at(c.max_liveness_events / l - 4);
+            for i in 0..l - 2 {
+                let _ = writeln!(s, "make w{i} get 0");
+            }
+            let k = ops.saturating_sub(l + 1);
+            for _ in 0..k {
+                s.push_str("x get x add 1\n");
+            }
+            expected = k.to_string();
+        }
+        _ => return None,
+    }
+    s.push_str("shout(x)\n");
+    Some((s, expected))
+}
+
+fn parse_case(s: &str) -> Option<(String, i64)> {
+    let (n, d) = s.split_once(':')?;
+    Some((n.to_string(), d.parse().ok()?))
+}
+
+fn gen_e2e(args: &[String]) -> i32 {
+    let Some(cases) = util::opt(args, "--case") else {
+        eprintln!("--case <name>:<delta>[,...]");
+        return 2;
+    };
+    let mut out = util::Out::new();
+    for case in cases.split(',') {
+        let Some((name, delta)) = parse_case(case) else {
+            eprintln!("bad case {case}");
+            return 2;
+        };
+        let Some((src, expected)) = e2e_source(&name, delta) else {
+            eprintln!("unknown case {name}");
+            return 2;
+        };
+        match front(&src) {
+            Err(m) => {
+                eprintln!("GEN-FAIL {case} {m}");
+                return 3;
+            }
+            Ok(f) => {
+                out.line(&format!(
+                    "e2e {} {} X={} {} {}",
+                    f.rootspan,
+                    util::hex(src.as_bytes()),
+                    util::hex(expected.as_bytes()),
+                    f.facts,
+                    f.ast
+                ));
+            }
+        }
+    }
+    0
+}
+
+/// `<caps> <hex src>` per line -> a `prog` request line (or `invalid <why>`).
+fn mk() -> i32 {
+    util::silence_panics();
+    let mut out = util::Out::new();
+    for line in util::stdin_lines() {
+        let w: Vec<&str> = line.split_whitespace().collect();
+        if w.len() != 12 || parse_caps(&w[..11]).is_none() {
+            out.line("invalid request");
+            continue;
+        }
+        let Some(src) = util::unhex(w[11]).and_then(|b| String::from_utf8(b).ok()) else {
+            out.line("invalid hex");
+            continue;
+        };
+        match front(&src) {
+            Err(m) if m.contains("panicked") => out.line(&format!("crash {}", w[11])),
+            Err(m) => out.line(&format!("invalid {m}")),
+            Ok(f) => out.line(&format!("prog {} {} {} {} {}", w[..11].join(" "), f.rootspan, w[11], f.facts, f.ast)),
+        }
+    }
+    0
+}
+
+fn print_src(args: &[String]) -> i32 {
+    let Some((name, delta)) = util::opt(args, "--case").and_then(parse_case) else { return 2 };
+    match e2e_source(&name, delta) {
+        Some((src, _)) => {
+            print!("{src}");
+            0
+        }
+        None => 2,
+    }
+}
